@@ -842,3 +842,40 @@ fn fetched_block_buffers_never_stop_the_verification_thread() {
         Err(_) => panic!("scenario did not finish"),
     }
 }
+
+/// C10 / C11: a block whose golden-ticket transaction carries a payload that is not a golden ticket is refused — the
+/// node neither aborts nor adopts it (payload sizes 0, 10, 96, 98, 200)
+#[test]
+#[serial_test::serial]
+fn block_with_a_malformed_golden_ticket_is_refused() {
+    let (tx_done, rx_done) = std::sync::mpsc::channel::<Option<String>>();
+    std::thread::spawn(move || {
+        let rt = tokio::runtime::Builder::new_current_thread().enable_all().build().unwrap();
+        rt.block_on(async move {
+            for len in [0usize, 10, 96, 98, 200] {
+                let mut t = TestManager::default();
+                t.initialize(100, 200_000_000_000_000).await;
+                let (b1, ts) = { let bc = t.blockchain_lock.read().await; let b = bc.get_latest_block().unwrap(); (b.hash, b.timestamp) };
+                let sk = { t.wallet_lock.read().await.private_key };
+                let mut b2 = t.create_block(b1, ts + 120000, 1, 0, 0, true).await;
+                let k = b2.transactions.iter().position(|tx| tx.transaction_type == TransactionType::GoldenTicket).expect("setup: block has a golden ticket");
+                b2.transactions[k].data = vec![7u8; len];
+                b2.transactions[k].sign(&sk);
+                b2.merkle_root = [0; 32];
+                let _ = b2.generate();
+                b2.sign(&sk);
+                let _ = b2.generate();
+                let h2 = b2.hash;
+                let r = futures::FutureExt::catch_unwind(std::panic::AssertUnwindSafe(t.add_block(b2))).await;
+                if r.is_err() { let _ = tx_done.send(Some(format!("adding a block whose golden-ticket transaction carries a {}-byte payload aborted the node", len))); return; }
+                if t.blockchain_lock.read().await.get_latest_block_hash() == h2 { let _ = tx_done.send(Some(format!("a block whose golden-ticket transaction carries a {}-byte payload became the tip", len))); return; }
+            }
+            let _ = tx_done.send(None);
+        });
+    });
+    match rx_done.recv_timeout(std::time::Duration::from_secs(120)) {
+        Ok(None) => {}
+        Ok(Some(w)) => witness(w),
+        Err(_) => { use std::io::Write; let _ = writeln!(std::io::stderr(), "WITNESS: adding a block with a malformed golden-ticket payload did not return (the node aborted)"); panic!("scenario did not finish"); }
+    }
+}
